@@ -766,6 +766,17 @@ def finish(pid, tier, seed, t0, P, results, violations, known_hits, plan, note=N
     for rp, suffix, desc in violations:
         log(f"violation: {desc}")
         print(f"VIOLATION property={pid} replay={rp}" + (f" {suffix}" if suffix else ""))
+    # disk is limited: the traces of jobs in which nothing failed are of no further use (the evidence file keeps
+    # samples and counts; failing histories have been copied to replays/)
+    for r in results:
+        clean = r.get("rc", 0) == 0 and all(h["status"] == "ok" for h in r.get("histories", [])) and r.get("miri") != "ub"
+        if clean and (tier == "thorough" or os.environ.get("VERIF_KEEP_TRACES") != "1"):
+            for f in ("trace.txt", "judge.txt", "ops.txt"):
+                try:
+                    if tier == "thorough" or os.path.getsize(os.path.join(r["workdir"], f)) > 64 * 1024 * 1024:
+                        os.remove(os.path.join(r["workdir"], f))
+                except OSError:
+                    pass
     if violations:
         return 1
     log(f"[{pid}] ok: {evals} histories, {lines} lines compared, {P['discharged']}/{P['obligations']} theorems, {time.time()-t0:.1f}s")
